@@ -67,10 +67,11 @@ class Stack(Sequence[T]):
         self.items.clear()
 
         if self.lengths:
-            item_count, _ = self.lengths[-1]
-            # Mark all items as popped for the latest snapshot
+            item_count, remained_count = self.lengths[-1]
+            # Mark all items as popped for the latest snapshot. Items above its
+            # low-water mark were pushed after it and are not restored.
             self.lengths[-1] = (item_count, 0)
-            self.popped.extend(reversed(removed))
+            self.popped.extend(reversed(removed[:remained_count]))
         else:
             # No snapshots to restore from; reset everything
             self.popped.clear()
@@ -99,7 +100,18 @@ class Stack(Sequence[T]):
         """Drop the last snapshot."""
         if self.lengths:
             item_count, remained_count = self.lengths.pop()
-            del self.popped[item_count - remained_count :]
+            dropped = item_count - remained_count
+            keep = 0
+            if self.lengths:
+                # Items popped from below the enclosing snapshot's low-water
+                # mark are still needed to restore that snapshot.
+                outer_count, outer_remained = self.lengths[-1]
+                if remained_count < outer_remained:
+                    keep = outer_remained - remained_count
+                    self.lengths[-1] = (outer_count, remained_count)
+            if dropped > keep:
+                size = len(self.popped)
+                del self.popped[size - dropped : size - keep]
 
     def restore(self) -> None:
         """Rewind the stack to the most recent snapshot.
